@@ -239,6 +239,12 @@ func runC12(c *fw.Ctx) {
 					if !evaluate(tp, tt, p, t, want.Data[0], "") {
 						return
 					}
+					if k.Rng.Intn(5) == 0 { // ONE tensor object as prediction and as target (a loss of a tensor against itself is defined like any other pair)
+						if ws, e := ref.Loss(kind, p, p); e == nil && !evaluate(tp, tp, p, p, ws.Data[0], " (the same tensor object as prediction and as target)") {
+							return
+						}
+						k.Count("evaluations_of_a_tensor_against_itself", 1)
+					}
 					if k.Rng.Intn(4) == 0 { // the loss is back-propagated, then read out AGAIN from the same prediction object (now spent, holding a gradient if it was tracked)
 						var bl tensor.Tensor
 						if pn := call(func() {
